@@ -265,6 +265,16 @@ def parse(s):
     return t
 
 
+def parse_targ_string(s):
+    """parse a template-argument type string keeping const qualifiers (they are part of the specialisation's identity)"""
+    p = P(tokenize(s), s)
+    p.kc = 1
+    t = p.parse_type()
+    if p.peek() is not None:
+        raise TypeError_('trailing tokens %r in type %r' % (p.t[p.i:], s))
+    return t
+
+
 def type_str(t):
     """canonical text of a type tree (used for naming / lookups)"""
     k = t[0]
